@@ -148,6 +148,14 @@ fn gen_obj(c: &mut Choice) -> Obj {
     f.add_sec(b"", m::SHT_NULL, vec![]);
     let mut idx_of = std::collections::HashMap::new();
     let mut sec_names = vec![vec![]];
+    // rarely: more than 0xffff sections, so that sh_link values and section indexes exceed 16 bits
+    let big = c.u8() == 0xA7 && c.u8() >= 208;
+    if big {
+        for _ in 0..0xffff + c.below(40) as usize {
+            f.add_sec(b"", m::SHT_PROGBITS, vec![]);
+            sec_names.push(vec![]);
+        }
+    }
     for s in &secs {
         let i = f.add_sec(&s.name, s.ty, s.body.clone());
         f.secs[i].hdr.sh_addralign = s.align;
@@ -176,9 +184,14 @@ fn gen_obj(c: &mut Choice) -> Obj {
             f.secs[i].hdr.sh_entsize = es as u64;
             f.secs[i].hdr.sh_link = if any_link {
                 // any section whose bytes exist in the file (a NOBITS section designates no file bytes)
-                let k = c.idx(nsec);
+                // (with extended numbering section 0 carries the section count in sh_size: not a data range either)
+                let k = if big { 1 + c.idx(nsec - 1) } else { c.idx(nsec) };
                 if f.secs[k].no_space {
-                    0
+                    if big {
+                        1
+                    } else {
+                        0
+                    }
                 } else {
                     k as u32
                 }
@@ -237,7 +250,7 @@ fn check<E: EndianParse + core::fmt::Debug>(e: E, o: &Obj, c: &mut Choice, obs: 
     let class = class_of(enc);
     let f = open_as(e, data).map_err(|er| format!("harness: generated object does not open: {}", err_name(&er)))?;
     let shdrs = f.section_headers().ok_or("no section headers")?;
-    let cd = f.find_common_data().map_err(|er| format!("find_common_data failed with {} on a well-formed object", err_name(&er)))?;
+    let cd = f.find_common_data().map_err(|er| format!("find_common_data failed with {:?} on a well-formed object (symbol_table: {}, dynamic_symbol_table: {}, dynamic: {})", er, ok_err(&f.symbol_table()), ok_err(&f.dynamic_symbol_table()), ok_err(&f.dynamic())))?;
     let find_type = |ty: u32| -> Option<SectionHeader> { shdrs.iter().find(|h| h.sh_type == ty) };
     // (a) common data vs the targeted accessors
     let st = f.symbol_table().map_err(|er| format!("symbol_table failed with {}", err_name(&er)))?;
@@ -324,7 +337,8 @@ fn check<E: EndianParse + core::fmt::Debug>(e: E, o: &Obj, c: &mut Choice, obs: 
     // (b) lookup by name = first header whose name string equals the query (both parsers)
     let mut fs = open_stream_as(e, std::io::Cursor::new(data)).map_err(|er| format!("harness: object does not open as a stream: {}", err_name(&er)))?;
     let shstr: Option<&[u8]> = if o.b.ehdr.e_shstrndx != 0 {
-        let h = &o.b.shdrs[o.b.ehdr.e_shstrndx as usize];
+        let idx = if o.b.ehdr.e_shstrndx == 0xffff { o.b.shdrs[0].sh_link as usize } else { o.b.ehdr.e_shstrndx as usize };
+        let h = &o.b.shdrs[idx];
         Some(&data[h.sh_offset as usize..(h.sh_offset + h.sh_size) as usize])
     } else {
         None
@@ -341,6 +355,13 @@ fn check<E: EndianParse + core::fmt::Debug>(e: E, o: &Obj, c: &mut Choice, obs: 
     }
     qnames.push("\0.text".to_string());
     qnames.push(".text\0".to_string());
+    qnames.sort();
+    qnames.dedup();
+    if qnames.len() > 60 {
+        // keep the work bounded for objects with tens of thousands of sections
+        let step = qnames.len() / 60 + 1;
+        qnames = qnames.into_iter().step_by(step).collect();
+    }
     let mut dup_or_prefix = false;
     for q in &qnames {
         let want: Option<SectionHeader> = shstr.and_then(|tab| {
@@ -370,7 +391,8 @@ fn check<E: EndianParse + core::fmt::Debug>(e: E, o: &Obj, c: &mut Choice, obs: 
     }
     // (c) typed views of every section / segment
     let mut refusals = 0u64;
-    for (i, hm) in o.b.shdrs.iter().enumerate() {
+    let skip_fill = o.b.shdrs.len().saturating_sub(60);
+    for (i, hm) in o.b.shdrs.iter().enumerate().skip(skip_fill) {
         let h = conv::shdr(hm, enc);
         let body: &[u8] = if hm.sh_type == m::SHT_NOBITS { &[] } else { &data[hm.sh_offset as usize..(hm.sh_offset + hm.sh_size) as usize] };
         // strtab
@@ -498,6 +520,7 @@ fn check<E: EndianParse + core::fmt::Debug>(e: E, o: &Obj, c: &mut Choice, obs: 
     let _ = c;
     let kinds = o.kinds_present.count_ones();
     obs.label_if(kinds >= 3, "3+kinds_present");
+    obs.label_if(o.b.shdrs.len() > 0xffff, "more_than_0xffff_sections");
     obs.label_if(dup_or_prefix, "duplicate_or_prefix_name_query");
     if kinds >= 3 && refusals > 0 && dup_or_prefix {
         obs.nontrivial();
@@ -509,9 +532,10 @@ fn oracle(case: &[u8], obs: &mut Obs) -> Result<(), String> {
     let mut c = Choice::new(case);
     let o = gen_obj(&mut c);
     let spec = specs_for(o.enc.le)[c.below(2) as usize];
-    with_endian!(spec, |e| check(e, &o, &mut c, obs)).map_err(|s| format!("{} {} object of {} bytes with sections {:?}: {}", o.enc.name(), SPEC_NAMES[spec as usize], o.b.bytes.len(), o.sec_names.iter().zip(o.b.shdrs.iter()).map(|(n, h)| format!("{}:{:#x}", String::from_utf8_lossy(n), h.sh_type)).collect::<Vec<_>>(), s))?;
+    let tail = o.b.shdrs.len().saturating_sub(16);
+    with_endian!(spec, |e| check(e, &o, &mut c, obs)).map_err(|s| format!("{} {} object of {} bytes with {} sections (last: {:?}): {}", o.enc.name(), SPEC_NAMES[spec as usize], o.b.bytes.len(), o.b.shdrs.len(), o.sec_names.iter().zip(o.b.shdrs.iter()).skip(tail).map(|(n, h)| format!("{}:{:#x}", String::from_utf8_lossy(n), h.sh_type)).collect::<Vec<_>>(), s))?;
     obs.key = fnv64(&o.b.bytes) ^ spec as u64;
-    obs.describe(|| json!({"enc": o.enc.name(), "spec": SPEC_NAMES[spec as usize], "file_len": o.b.bytes.len(), "sections": o.sec_names.iter().zip(o.b.shdrs.iter()).map(|(n, h)| format!("{}:type{:#x}:link{}", String::from_utf8_lossy(n), h.sh_type, h.sh_link)).collect::<Vec<_>>(), "segments": o.b.phdrs.iter().map(|p| format!("{:#x}", p.p_type)).collect::<Vec<_>>(), "pt_dynamic": o.has_pt_dynamic}));
+    obs.describe(|| json!({"enc": o.enc.name(), "spec": SPEC_NAMES[spec as usize], "file_len": o.b.bytes.len(), "sections": o.sec_names.iter().zip(o.b.shdrs.iter()).skip(tail).map(|(n, h)| format!("{}:type{:#x}:link{}", String::from_utf8_lossy(n), h.sh_type, h.sh_link)).collect::<Vec<_>>(), "segments": o.b.phdrs.iter().map(|p| format!("{:#x}", p.p_type)).collect::<Vec<_>>(), "pt_dynamic": o.has_pt_dynamic}));
     Ok(())
 }
 
